@@ -575,7 +575,7 @@ class An:
                 return t                # &[u8;N] -> &[u8] etc.: same place
             return ('cast', ck, rv['ty'], t)
         if k == 'binop':
-            return ('bin', rv['op'], self.val_op(rv['l'], point), self.val_op(rv['r'], point))
+            return fold_bin(rv['op'], self.val_op(rv['l'], point), self.val_op(rv['r'], point))
         if k == 'unop':
             x = self.val_op(rv['x'], point)
             if rv['op'] == 'PtrMetadata':
@@ -856,6 +856,19 @@ def mk_residual(x):
     return ('residual', x)
 
 
+_INT_BITS = {'u8': 8, 'u16': 16, 'u32': 32, 'u64': 64, 'usize': 64, 'u128': 128}
+
+
+def fold_bin(op, l, r):
+    """constant folding of unsigned integer arithmetic that does not overflow (`4..4 + 2` is `4..6`)"""
+    if op in ('Add', 'Sub', 'Mul') and l[0] == 'const' and r[0] == 'const' and l[1] == r[1] and l[1] in _INT_BITS and \
+            isinstance(l[2], int) and isinstance(r[2], int) and not isinstance(l[2], bool) and not isinstance(r[2], bool):
+        v = l[2] + r[2] if op == 'Add' else (l[2] - r[2] if op == 'Sub' else l[2] * r[2])
+        if 0 <= v < (1 << _INT_BITS[l[1]]):
+            return ('const', l[1], v)
+    return ('bin', op, l, r)
+
+
 def project(v, path):
     for e in path:
         v = project1(v, e)
@@ -870,7 +883,7 @@ def project1(v, e):
         name = e[1]
         if v[0] == 'bin' and v[1].endswith('WithOverflow'):
             if name == '0':
-                return ('bin', v[1][:-len('WithOverflow')], v[2], v[3])
+                return fold_bin(v[1][:-len('WithOverflow')], v[2], v[3])
             return ('overflow', v[1][:-len('WithOverflow')], v[2], v[3])
         if v[0] == 'closure' and name.isdigit() and int(name) < len(v[2]):
             return v[2][int(name)]           # a captured variable of an inlined closure
